@@ -74,6 +74,8 @@ example :
 
 /-! ### Alternating dual updates -/
 
+/-- One outer iteration of `adupdates` (shared temporaries `tmp_rans`, any callback mode) and of
+`adupdates_simple` from states that agree on `x` and the duals end in states that agree. -/
 theorem C11.adupdates_step_refines {K V W : Type} [Field K] [AddCommGroup V] [Module K V]
     [AddCommGroup W] [Module K W] (P : AduP K V W) (so : AduOpt V W) (ss : AduSimple V W)
     (h : so.x = ss.x ∧ so.duals = ss.duals) :
@@ -89,6 +91,9 @@ theorem C11.adupdates_step_refines {K V W : Type} [Field K] [AddCommGroup V] [Mo
   unfold AduP.stepOpt AduP.stepSimple
   split <;> exact h2
 
+/-- `adupdates` = `adupdates_simple` (fixed order): for every number of operators, all operators /
+adjoints / proximals (arbitrary functions), all step sizes, every assignment `rid` of operators to
+shared temporaries, every initial content of those temporaries, every `n`: same `x`, same duals. -/
 theorem C11.adupdates_refines {K V W : Type} [Field K] [AddCommGroup V] [Module K V]
     [AddCommGroup W] [Module K W] (P : AduP K V W) (x0 : V) (duals0 tmp0 : Nat → W) (n : Nat) :
     (P.stepOpt^[n] ⟨x0, duals0, tmp0, []⟩).x = (P.stepSimple^[n] ⟨x0, duals0⟩).x ∧
@@ -97,6 +102,7 @@ theorem C11.adupdates_refines {K V W : Type} [Field K] [AddCommGroup V] [Module 
     (fun so ss h => C11.adupdates_step_refines P so ss h) n _ _ ⟨rfl, rfl⟩
 
 /-! ### Double-proximal DC -/
+/-- The loop bodies of `doubleprox_dc` (in-place `lincomb`s) and `doubleprox_dc_simple` are the same map. -/
 theorem C11.doubleprox_step_refines {K V W : Type} [Field K] [AddCommGroup V] [Module K V]
     [AddCommGroup W] [Module K W] (P : DpdcP K V W) (s : V × W) :
     P.stepOpt s = P.stepSimple s := by
@@ -107,6 +113,8 @@ theorem C11.doubleprox_step_refines {K V W : Type} [Field K] [AddCommGroup V] [M
     intro w; simp only [lincomb]; module
   simp only [DpdcP.stepOpt, DpdcP.stepSimple, e1, e2]
 
+/-- `doubleprox_dc` = `doubleprox_dc_simple`: same `(x, y)` after every number `n` of iterations,
+for all `K`, `K*`, proximals and gradient (arbitrary functions), all `gamma`, `mu`, all starts. -/
 theorem C11.doubleprox_refines {K V W : Type} [Field K] [AddCommGroup V] [Module K V]
     [AddCommGroup W] [Module K W] (P : DpdcP K V W) (x0 : V) (y0 : W) (n : Nat) :
     P.stepOpt^[n] (x0, y0) = P.stepSimple^[n] (x0, y0) := by
@@ -118,12 +126,16 @@ section
 variable {K V W : Type} [Field K] [AddCommGroup V] [Module K V] [AddCommGroup W] [Module K W]
 set_option linter.unusedSectionVars false
 
+/-- Landweber: `n` iterations, then a fresh call (temporaries re-allocated with arbitrary content)
+with `m` more, gives the iterate of `n + m` iterations; any (non-linear) operator, any projection. -/
 theorem C11.resume_landweber (P : LandweberP K V W) (x0 : V) (jW jW' : W) (jV jV' : V) (n m : Nat) :
     (P.step^[m] (P.init (P.step^[n] (P.init x0 jW jV)).x jW' jV')).x =
       (P.step^[n + m] (P.init x0 jW jV)).x :=
   resume_generic P.step (·.x) (fun x => P.init x jW' jV')
     (fun s t h => by simp only [LandweberP.step] at *; rw [h]) (fun _ => rfl) n m _
 
+/-- Kaczmarz in fixed order (any number of operators, projection, callback mode): `n` sweeps then
+`m` sweeps from a fresh call = `n + m` sweeps. -/
 theorem C11.resume_kaczmarz (P : KaczmarzP K V W) (x0 : V) (tR tR' : Nat → W) (jV jV' : V)
     (log' : List V) (n m : Nat) :
     (P.step^[m] ⟨(P.step^[n] ⟨x0, tR, jV, []⟩).x, tR', jV', log'⟩).x =
@@ -135,6 +147,8 @@ theorem C11.resume_kaczmarz (P : KaczmarzP K V W) (x0 : V) (tR tR' : Nat → W) 
       unfold KaczmarzP.step
       split <;> exact this) (fun _ => rfl) n m _
 
+/-- Proximal gradient with a CONSTANT relaxation `lam` (the iteration counter `k` restarts at 0 in
+a fresh call, so a callable `lam` is excluded): `n` then `m` iterations = `n + m`. -/
 theorem C11.resume_proximal_gradient (P : ProxGradP K V) (c : K) (hlam : ∀ k, P.lam k = c)
     (x0 junk junk' : V) (n m : Nat) :
     (P.step^[m] (P.init (P.step^[n] (P.init x0 junk)).x junk')).x =
@@ -142,6 +156,8 @@ theorem C11.resume_proximal_gradient (P : ProxGradP K V) (c : K) (hlam : ∀ k, 
   resume_generic P.step (·.x) (fun x => P.init x junk')
     (fun s t h => by simp only [ProxGradP.step, hlam] at *; rw [h]) (fun _ => rfl) n m _
 
+/-- MLEM / OSMLEM (any number of subsets; clamps, divisions, products arbitrary functions): `n`
+then `m` iterations from a fresh call = `n + m` iterations. -/
 theorem C11.resume_osmlem (P : OsmlemP V W) (x0 jV jV' : V) (tR tR' : Nat → W) (log' : List V)
     (n m : Nat) :
     (P.step^[m] ⟨(P.step^[n] ⟨x0, jV, tR, []⟩).x, jV', tR', log'⟩).x =
@@ -151,6 +167,8 @@ theorem C11.resume_osmlem (P : OsmlemP V W) (x0 jV jV' : V) (tR tR' : Nat → W)
         (fun i a b hab => by simp only [OsmlemP.inner] at *; rw [hab]) P.nOps s t h)
     (fun _ => rfl) n m _
 
+/-- PDHG with constant `tau, sigma, theta`: when the `x_relax` and `y` the first call updated in place
+are passed back, `n` then `m` iterations give the same `x, x_relax, y` as `n + m` iterations. -/
 theorem C11.pdhg_resume (P : PdhgP K V W) (x0 : V) (xr0 : Option V) (y0 : Option W) (zeroW : W)
     (jV jV' : V) (jW jW' : W) (n m : Nat) :
     let s := P.step^[n] (P.init x0 xr0 y0 zeroW jV jW)
@@ -177,6 +195,10 @@ theorem C11.pdhg_resume_needs_state :
   norm_num
 end
 
+/-- Steepest descent with ANY stateless line search (in particular a constant step), tolerance
+test and projection included: if the first call returned normally (the line search did not
+raise), `n` then `m` iterations from a fresh call = `n + m` iterations (an early `return` on the
+tolerance test is re-taken by the fresh call). -/
 theorem C11.resume_steepest_descent {K V : Type} [Field K] [LinearOrder K] [AddCommGroup V]
     [Module K V] (P : SteepestP K V) (x0 g0 g0' : V) (n m : Nat)
     (hok : (P.step^[n] ⟨x0, g0, false, false, []⟩).failed = false) :
@@ -201,6 +223,9 @@ theorem C11.resume_steepest_descent {K V : Type} [Field K] [LinearOrder K] [AddC
 
 /-! ### Callbacks -/
 
+/-- Callbacks: a loop `for _ in range(n): step; callback(x)` calls the callback exactly `n` times,
+the `k`-th call with the iterate after `k+1` steps, and ends in the `n`-fold iterate of `step`
+(used by admm, doubleprox_dc, landweber, proximal_gradient, pdhg in the driver). -/
 theorem C11.callback_once {S O : Type} (step : S → S) (obs : S → O) (n : Nat) (s : S) :
     (runLog step obs n s []).1 = step^[n] s ∧ (runLog step obs n s []).2.length = n ∧
     ∀ k, k < n → (runLog step obs n s []).2[k]? = some (obs (step^[k + 1] s)) := by
@@ -209,6 +234,7 @@ theorem C11.callback_once {S O : Type} (step : S → S) (obs : S → O) (n : Nat
   intro k hk
   simp [hk]
 
+/-- Kaczmarz: `n` sweeps call the callback `n` times (`callback_loop='outer'`) or `n * m` times (`'inner'`). -/
 theorem C11.kaczmarz_callback_count {K V W : Type} [Field K] [AddCommGroup V] [Module K V]
     [AddCommGroup W] (P : KaczmarzP K V W) (s : KaczmarzS V W) (n : Nat) :
     (P.step^[n] s).log.length = s.log.length + n * (if P.cbInner then P.m else 1) := by
@@ -219,6 +245,7 @@ theorem C11.kaczmarz_callback_count {K V W : Type} [Field K] [AddCommGroup V] [M
   unfold KaczmarzP.step
   split <;> simp_all
 
+/-- adupdates: `n` outer iterations call the callback `n` (`'outer'`) or `n * m` (`'inner'`) times. -/
 theorem C11.adupdates_callback_count {K V W : Type} [Field K] [AddCommGroup V] [Module K V]
     [AddCommGroup W] [Module K W] (P : AduP K V W) (s : AduOpt V W) (n : Nat) :
     (P.stepOpt^[n] s).log.length = s.log.length + n * (if P.cbInner then P.m else 1) := by
@@ -230,6 +257,8 @@ theorem C11.adupdates_callback_count {K V W : Type} [Field K] [AddCommGroup V] [
   unfold AduP.stepOpt
   split <;> simp_all
 
+/-- OSMLEM calls the callback after every SUBSET update: `n * nOps` calls in `n` iterations
+(once per iteration for `mlem`, `nOps = 1`). -/
 theorem C11.osmlem_callback_count {V W : Type} (P : OsmlemP V W) (s : OsmlemS V W) (n : Nat) :
     (P.step^[n] s).log.length = s.log.length + n * P.nOps := by
   apply iterate_count P.step (fun s => s.log.length)
@@ -237,3 +266,26 @@ theorem C11.osmlem_callback_count {V W : Type} (P : OsmlemP V W) (s : OsmlemS V 
   have := forRange_count P.inner (fun s => s.log.length) 1
     (fun i s => by simp [OsmlemP.inner]) P.nOps s
   simpa [OsmlemP.step] using this
+
+/-! ### Non-vacuity -/
+
+/-- `adupdates` on a concrete 1-d instance with two operators sharing one temporary
+(`rid = 0`): the iterate moves and both versions agree. -/
+example :
+    let P : AduP ℚ ℚ ℚ := ⟨2, fun i x => (i + 1 : ℚ) * x, fun i y => (i + 1 : ℚ) * y,
+      fun _ y => y / 2, 1, fun _ => 1 / 2, fun _ => 0, false⟩
+    (P.stepOpt^[1] ⟨1, fun _ => 0, fun _ => -77, []⟩).x = (P.stepSimple^[1] ⟨1, fun _ => 0⟩).x ∧
+    (P.stepSimple^[1] ⟨1, fun _ => 0⟩).x ≠ 1 := by
+  simp only [Function.iterate_succ, Function.iterate_zero, Function.comp, AduP.stepOpt,
+    AduP.stepSimple, AduP.primal, AduP.innerOpt, AduP.innerSimple, forRange, List.range,
+    List.range.loop, List.foldl, upd, smul_eq_mul]
+  norm_num
+
+/-- The hypothesis of `resume_steepest_descent` is satisfiable with a step that is really
+taken: constant step 1/4 on `f(x) = x²` from `x = 1` does not fail and moves to `1/2`. -/
+example :
+    let P : SteepestP ℚ ℚ := ⟨fun x => 2 * x, fun g => g * g, 1 / 100, fun _ _ _ => some (1 / 4), none⟩
+    (P.step^[1] ⟨1, 0, false, false, []⟩).failed = false ∧ (P.step^[1] ⟨1, 0, false, false, []⟩).x = 1 / 2 := by
+  simp only [Function.iterate_succ, Function.iterate_zero, Function.comp, SteepestP.step, absK,
+    applyProj, lincomb, smul_eq_mul]
+  norm_num
